@@ -108,6 +108,9 @@ func (t *Thread) callFn(fn *ssa.Function, args []Value, env []Value, pos token.P
 	if fn.Name() == "init" && pkg != e.eng.pkg && pkg != nil {
 		return nil
 	}
+	if pkg != nil && pkg != e.eng.pkg && purePackages[pkg.Pkg.Path()] && fn.Synthetic == "" {
+		e.ensurePkgInit(pkg)
+	}
 	if pkg != e.eng.pkg && fn.Synthetic == "" || pkg != e.eng.pkg && pkg != nil {
 		name := fn.String()
 		if h, ok := stubs[name]; ok {
@@ -336,12 +339,41 @@ func (t *Thread) constValue(c *ssa.Const) Value {
 	return nil
 }
 
+// ensurePkgInit runs the initialiser of an interpreted library package once per path.
+func (e *Exec) ensurePkgInit(p *ssa.Package) {
+	if e.pkgInit == nil {
+		e.pkgInit = map[*ssa.Package]bool{}
+	}
+	if e.pkgInit[p] {
+		return
+	}
+	e.pkgInit[p] = true
+	if init := p.Func("init"); init != nil {
+		st := &Thread{id: 0, e: e}
+		if e.cur != nil {
+			st = e.cur
+		} else if len(e.threads) > 0 {
+			st = e.threads[0]
+		}
+		save := st.fr
+		st.interpret(init, nil, nil)
+		st.fr = save
+	}
+}
+
 func (e *Exec) globalCell(g *ssa.Global) *Cell {
 	if c, ok := e.globals[g]; ok {
 		return c
 	}
 	et := g.Type().(*types.Pointer).Elem()
 	var c *Cell
+	if g.Pkg != e.eng.pkg && g.Pkg != nil && purePackages[g.Pkg.Pkg.Path()] {
+		// a package interpreted from source: its globals are ordinary cells set up by its own init
+		c = e.newCell(e.zero(et))
+		e.globals[g] = c
+		e.ensurePkgInit(g.Pkg)
+		return e.globals[g]
+	}
 	if g.Pkg != e.eng.pkg {
 		if types.Identical(et, errorType) {
 			e.errSeq++
